@@ -18,6 +18,8 @@ use serde_json::json;
 #[derive(Clone, Debug)]
 pub enum Call {
     Op(Op),
+    /// state preparation through the API (part of the reachable state), then the call under test
+    Prepared(Vec<Op>, Op),
     ReadStream(String),
     Select { table: String, cols: Vec<String>, cond: Option<MExpr> },
 }
@@ -93,6 +95,20 @@ pub fn families(s: &Session, g: &mut Gen) -> Vec<(&'static str, Call)> {
     out.push(("create/string-width-300", c(Op::CreateTable { name: fresh.clone(), cols: vec![key.clone(), ColDef::new("W", CT::Str(300))] })));
     out.push(("create/enum-value-with-separator", c(Op::CreateTable { name: fresh.clone(), cols: vec![key.clone(), ColDef::new("E", CT::Str(0)).enums(&["a;b", "c"])] })));
     out.push(("create/enum-empty-value", c(Op::CreateTable { name: fresh.clone(), cols: vec![key.clone(), ColDef::new("E", CT::Str(0)).enums(&[""])] })));
+    // ---- create_table onto stale catalog rows that were put there through the API itself
+    let stale = format!("Stale{}", tok);
+    let vrow = |col: &str| vec![V::Str(stale.clone()), V::s(col), V::s("N"), V::Null, V::Null, V::Null, V::Null, V::Null, V::Null, V::Null];
+    out.push((
+        "create/stale-validation-row",
+        Call::Prepared(vec![Op::Insert { table: "_Validation".into(), rows: vec![vrow("V")] }], Op::CreateTable { name: stale.clone(), cols: kv("x") }),
+    ));
+    out.push((
+        "create/stale-columns-row",
+        Call::Prepared(
+            vec![Op::Insert { table: "_Columns".into(), rows: vec![vec![V::Str(stale.clone()), V::Int(2), V::s("V"), V::Int(0x1d00)]] }],
+            Op::CreateTable { name: stale.clone(), cols: kv("x") },
+        ),
+    ));
     // ---- drop_table
     out.push(("drop/unknown", c(Op::DropTable { name: fresh.clone() })));
     out.push(("drop/reserved", c(Op::DropTable { name: "_Validation".into() })));
@@ -201,7 +217,7 @@ fn call_tokens(call: &Call) -> Vec<String> {
             out.push(t);
         }
     };
-    if let Call::Op(op) = call {
+    if let Call::Op(op) | Call::Prepared(_, op) = call {
         match op {
             Op::CreateTable { name, cols } => {
                 add(name);
@@ -236,11 +252,34 @@ fn call_tokens(call: &Call) -> Vec<String> {
 
 /// Fires one call; if it returns Err, the package must be unchanged.
 pub fn fire(s: &mut Session, fam: &str, call: &Call, rep: &mut Report) -> Result<bool, Finding> {
+    if let Call::Prepared(prep, _) = call {
+        let pkg = s.pkg.as_mut().expect("live");
+        for op in prep {
+            match guarded(|| exec_op(pkg, op)) {
+                Ok(Ok(())) => {}
+                Ok(Err(_)) => return Ok(true), // the state could not be prepared: nothing to decide
+                Err(p) => {
+                    s.leak();
+                    return Err(crate::engine::panic_finding("state preparation", &p));
+                }
+            }
+        }
+        // the model does not track catalog tables; re-base the session on what is there now
+        let o = s.observe()?;
+        s.last = Some(o);
+        // a hand-made catalog state that the library cannot even reopen is outside what a
+        // rejected call can be blamed for: skip (counted)
+        let pkg = s.pkg.as_mut().expect("live");
+        if !matches!(guarded(|| pkg.flush()), Ok(Ok(()))) || reopen_observe(&s.med.live()).is_err() {
+            rep.count("prepared_state_not_reopenable_skipped");
+            return Ok(true);
+        }
+    }
     let before = s.observe()?;
     let pkg = s.pkg.as_mut().expect("live");
     let res = guarded(|| -> Result<(), std::io::Error> {
         match call {
-            Call::Op(op) => exec_op(pkg, op),
+            Call::Op(op) | Call::Prepared(_, op) => exec_op(pkg, op),
             Call::ReadStream(n) => pkg.read_stream(n).map(|_| ()),
             Call::Select { table, cols, cond } => {
                 let mut q = msi::Select::table(table.clone());
@@ -294,7 +333,13 @@ pub fn fire(s: &mut Session, fam: &str, call: &Call, rep: &mut Report) -> Result
         });
     }
     // pool accounting via the independent decoder: nothing of the rejected call may be in the file
-    let live = tokens_in_model(&s.model);
+    let mut live = tokens_in_model(&s.model);
+    if let Call::Prepared(prep, _) = call {
+        // strings the preparation itself put into the package are legitimately there
+        for op in prep {
+            live.extend(call_tokens(&Call::Op(op.clone())));
+        }
+    }
     let dead: Vec<String> = call_tokens(call).into_iter().filter(|t| !live.contains(t)).collect();
     rep.count("saved_images_decoded");
     if let Err(f) = check_image(&bytes, &before, &dead) {
@@ -326,6 +371,10 @@ fn run_case(seed: u64, case: u64, rep: &mut Report) {
     }
     let fams = families(&s, &mut g);
     for (fam, call) in fams.iter() {
+        if matches!(call, Call::Prepared(..)) {
+            // these change the (catalog) state on purpose: isolated runs only
+            continue;
+        }
         rep.case(Some(fnv(format!("{}:{}:{}", fam, s.model.tables.len(), s.model.tables.values().map(|t| t.rows.len().min(3)).sum::<usize>()).as_bytes())));
         rep.count(&format!("family:{}", fam.split('/').next().unwrap_or("")));
         match fire(&mut s, fam, call, rep) {
